@@ -167,7 +167,12 @@ func arrayExecInsert(ar *Array, values []r.Element) (r.Element, error) {
 		return nil, err
 	}
 	v := values[1].(*Number)
-	ar.value = insertArrayValue(ar.value, int(v.value), values[0])
+	// a negative position counts from the end, but never beyond the first item
+	idx := int(v.value)
+	if idx < 0 && len(ar.value)+idx < 0 {
+		return nil, zerr.IndexOutOfRange()
+	}
+	ar.value = insertArrayValue(ar.value, idx, values[0])
 
 	return ar, nil
 }
